@@ -429,7 +429,7 @@ func c17(c *report.Check) {
 		// kinds; the other keys get all kinds (c, thorough) or a reduced set (boundary keys)
 		all := []int{0, 1, 2, 3, 4, 5, 6}
 		universe := []string{"a", "ab", "c", "z"}
-		kindsOf := [][]int{all, all, all, {0, 5, 6}}
+		kindsOf := [][]int{all, all, {0, 1, 4}, {0, 5, 6}}
 		if c.Thorough() {
 			universe = append(universe, "o")
 			kindsOf = [][]int{all, all, all, {0, 1, 5, 6}, {0, 1, 4, 6}}
@@ -618,7 +618,7 @@ func c17(c *report.Check) {
 	c.Set("distinct_nontrivial", dist.N())
 	c.Set("samples", dist.Samples)
 	c.Set("exhaustive", true)
-	c.Set("rule", "for each hash function {degenerate (a,ab->5; c->9; z->2^48-1; o->0), chord.Hash} and each backend: every assignment of content kinds {none, simple, children, lease, populated-then-emptied, empty value, all three} to the keys (quick: a,ab,c all 7 kinds, z {none,empty value,all}; thorough: a,ab,c all 7 kinds, z {none,simple,empty value,all}, o {none,simple,emptied,all}), built through the real API; (1) RangeKeys(low,high) for every pair over {hashes present, +-1, 0, 2^48-1}; (2) Export of {keys with content} and of {all keys} -> direct and protobuf-encoded -> Import into an empty store of each backend (9 pairs), destination content, listings and lease token compared, source unchanged; (3) RemoveKeys of every subset of <= 3 keys, full content compared; class = (range kind, number of keys returned) / number of populated keys")
+	c.Set("rule", "for each hash function {degenerate (a,ab->5; c->9; z->2^48-1; o->0), chord.Hash} and each backend: every assignment of content kinds {none, simple, children, lease, populated-then-emptied, empty value, all three} to the keys (quick: a,ab all 7 kinds, c {none,simple,emptied}, z {none,empty value,all}; thorough: a,ab,c all 7 kinds, z {none,simple,empty value,all}, o {none,simple,emptied,all}), built through the real API; (1) RangeKeys(low,high) for every pair over {hashes present, +-1, 0, 2^48-1}; (2) Export of {keys with content} and of {all keys} -> direct and protobuf-encoded -> Import into an empty store of each backend (9 pairs), destination content, listings and lease token compared, source unchanged; (3) RemoveKeys of every subset of <= 3 keys, full content compared; class = (range kind, number of keys returned) / number of populated keys")
 	c.Assume("hash values lie in the chord identifier space [0, 2^48) (sqlite stores hashes as signed 64-bit integers)",
 		"a key whose only content is Put(k, []byte{}) is undecided for RangeKeys membership and for the SIMPLE entry of ListKeys: C16's statement treats an empty value as absent, the repository's TestEmptyValueTransferRoundTrip pins that such a key is listed and transferred by sqlite; it must still never be listed outside the range; what each backend does is recorded in empty_value_only_keys_listed_by_rangekeys_0_0",
 		"simple values compared with empty == absent",
